@@ -7,7 +7,7 @@ from checks import _ops
 
 PROPERTY = "C04"
 LEVEL = "translation_validation"
-CASE_TIMEOUT = {"quick": 420, "thorough": 1500}
+CASE_TIMEOUT = {"quick": 420, "thorough": 600}
 ENCODED = [
     "cirkit.symbolic.functional.multiply",
     "cirkit.symbolic.operators.multiply_embedding_layers/multiply_categorical_layers/multiply_gaussian_layers/"
@@ -97,6 +97,13 @@ def cases(tier, seed):
                 d = dict(c)
                 d["semiring"] = s
                 out.append(d)
+        for i_, c in enumerate(_ops.random_pipes(seed, 100, "multiply")):
+            d = dict(c)
+            ss_ = ["sum-product", "lse-sum", "complex-lse-sum"]
+            d["semiring"] = ss_[i_ % len(ss_)]
+            if d.pop("no_complex", False) and d["semiring"] == "complex-lse-sum":
+                d["semiring"] = "sum-product"
+            out.append(d)
     return out
 
 
